@@ -18,6 +18,7 @@ import (
 	"path/filepath"
 	"regexp"
 	"strings"
+	"verif/harness/internal/cfbx"
 
 	"github.com/rs/zerolog"
 
@@ -318,6 +319,8 @@ func Regions(typ string, data []byte, detachedContentLen int) (regionMap, error)
 			p += sz
 		}
 		return nil, fmt.Errorf("no LC_CODE_SIGNATURE")
+	case "msi":
+		return msiRegions(data)
 	case "pkg":
 		ztoc := int(binary.BigEndian.Uint64(data[8:]))
 		return regionMap{"sigcontainer": {{28, 28 + ztoc}}}, nil
@@ -602,6 +605,20 @@ func TamperMain(args []string) {
 					os.RemoveAll(filepath.Dir(inl))
 				}
 			}
+			// semantic mutation: a member added after signing, with a correct section of its own in MANIFEST.MF
+			if typ == "jar" {
+				if td, err := InjectJarMember(final); err == nil {
+					os.WriteFile(work, td, 0600)
+					r.Eval(true)
+					if err := verify(work, orig); err == nil {
+						r.Fail(map[string]string{"engine": "tamper", "type": "jar", "region": "injected-member"}, map[string]any{"key": key},
+							"jar/%s: a member was added after signing together with its own MANIFEST.MF section (digest correct, .SF and signature block untouched) and the verifier reports success", key)
+					}
+					r.Count("jar_injected", 1)
+				} else {
+					r.Note("jar member injection not applicable: %v", err)
+				}
+			}
 			// semantic mutation: graft a VALID signature made over a different image into this file's certificate table
 			if (typ == "pe-dll" || typ == "pe-exe") && !strings.HasSuffix(final, ".tmp") {
 				c2 := &Case{Type: typ, Mode: "standalone", Variant: "tweaked", Rounds: []round{{Key: key, Digest: "sha256", Outcome: "ok"}}}
@@ -639,4 +656,91 @@ func TamperMain(args []string) {
 	}
 	r.Extra["behaviours_mine"] = mine
 	r.Emit()
+}
+
+// msiRegions: stream contents, directory metadata and the signature value of a signed MSI, located with the harness's
+// own compound-file reader.
+func msiRegions(data []byte) (regionMap, error) {
+	st, err := cfbx.ReadData(data)
+	if err != nil {
+		return nil, err
+	}
+	rm := regionMap{}
+	ss, hdr := st.SectorSize, st.HeaderSize
+	chain := func(start int) []int {
+		var c []int
+		for n := start; n >= 0 && n < len(st.Fat) && len(c) <= len(st.Fat); n = st.Fat[n] {
+			c = append(c, n)
+		}
+		return c
+	}
+	dirChain := chain(st.DirStart)
+	var container []int
+	if len(st.Dir) > 0 && st.Dir[0].Start >= 0 {
+		container = chain(st.Dir[0].Start)
+	}
+	for _, e := range st.Dir {
+		if e.Type == 0 {
+			continue
+		}
+		sigStream := strings.HasPrefix(e.Name, "\x05DigitalSignature") || strings.HasPrefix(e.Name, "\x05MsiDigitalSignatureEx")
+		// directory entry position
+		k := e.Idx * 128 / ss
+		if k < len(dirChain) && !sigStream {
+			pos := hdr + dirChain[k]*ss + (e.Idx*128)%ss
+			if e.Type == 2 {
+				rm["metadata"] = append(rm["metadata"], span{pos + 96, pos + 116}) // state bits, creation time, modification time
+			} else {
+				rm["metadata"] = append(rm["metadata"], span{pos + 80, pos + 96}) // storage / root class id
+			}
+		}
+		if e.Type != 2 || e.Size == 0 {
+			continue
+		}
+		var spans []span
+		remaining := e.Size
+		if e.Size >= st.Cutoff {
+			for _, n := range chain(e.Start) {
+				l := ss
+				if remaining < l {
+					l = remaining
+				}
+				spans = append(spans, span{hdr + n*ss, hdr + n*ss + l})
+				remaining -= l
+				if remaining <= 0 {
+					break
+				}
+			}
+		} else {
+			for n, g := e.Start, 0; n >= 0 && n < len(st.MiniFat) && g <= len(st.MiniFat) && remaining > 0; n, g = st.MiniFat[n], g+1 {
+				off := n * st.MiniSize
+				if off/ss >= len(container) {
+					break
+				}
+				p := hdr + container[off/ss]*ss + off%ss
+				l := st.MiniSize
+				if remaining < l {
+					l = remaining
+				}
+				spans = append(spans, span{p, p + l})
+				remaining -= l
+			}
+		}
+		switch {
+		case e.Name == "\x05DigitalSignature":
+			contiguous := len(spans) > 0
+			for i := 1; i < len(spans); i++ {
+				if spans[i].lo != spans[i-1].hi {
+					contiguous = false
+				}
+			}
+			if contiguous {
+				rm["sigvalue"] = cmsSpansAt(data[spans[0].lo:spans[len(spans)-1].hi], spans[0].lo)
+			}
+		case sigStream:
+		default:
+			rm["payload"] = append(rm["payload"], spans...)
+		}
+	}
+	return rm, nil
 }
